@@ -1174,6 +1174,9 @@ class Driver:
                 key = Graph.key(ev)
                 is_write = key[0] not in READ_OPS and key[0] not in CONTROL_OPS
                 quiet_before = prev['view']['quiet']
+                if key[0] == 'BulkDelete' and ad.touched:
+                    self.stats['sim_inconclusive'] += 1     # modelled only for a session that holds no objects yet
+                    break
                 if is_write and quiet_before and rng.random() < 0.6:
                     self.stats['free_reads'] = self.stats.get('free_reads', 0) + self.free_reads_state(ad, prev, key, 'before')
                 if key[0] in ('Commit', 'End') and quiet_before and rng.random() < 0.5:
